@@ -362,10 +362,76 @@ def _replace(root: ast.AST, old: ast.AST, new: ast.AST) -> None:
                         return
 
 
+def _propagate_self_aliases(fn: ast.FunctionDef) -> int:
+    """`hdr = self.header` ... `hdr.nchans`  ->  `self.header.nchans`: a local bound once to a plain attribute chain of
+    `self` that the function never assigns is only another spelling of that chain."""
+    assigns: dict[str, list[ast.Assign]] = {}
+    other_bind: set[str] = set()
+    stored_chains: set[str] = set()
+    params = {a.arg for a in (*fn.args.posonlyargs, *fn.args.args, *fn.args.kwonlyargs)} | \
+        ({fn.args.vararg.arg} if fn.args.vararg else set()) | ({fn.args.kwarg.arg} if fn.args.kwarg else set())
+    for n in ast.walk(fn):
+        if isinstance(n, (ast.FunctionDef, ast.Lambda)) and n is not fn:
+            return 0   # closures: leave alone
+        if isinstance(n, ast.Assign) and len(n.targets) == 1 and isinstance(n.targets[0], ast.Name):
+            assigns.setdefault(n.targets[0].id, []).append(n)
+        elif isinstance(n, ast.Name) and isinstance(n.ctx, (ast.Store, ast.Del)):
+            other_bind.add(n.id)
+        if isinstance(n, ast.Attribute) and isinstance(n.ctx, (ast.Store, ast.Del)):
+            d = _dotted(n)
+            if d:
+                stored_chains.add(d)
+        if isinstance(n, (ast.Global, ast.Nonlocal)):
+            return 0
+    done = 0
+    for name, sts in assigns.items():
+        if len(sts) != 1 or name in params:
+            continue
+        st = sts[0]
+        chain = _dotted(st.value) if isinstance(st.value, ast.Attribute) else None
+        if chain is None or not chain.startswith("self.") or chain.count(".") > 3:
+            continue
+        # bound anywhere else (loop target, with-as, augmented, tuple assignment)?
+        stores = [n for n in ast.walk(fn) if isinstance(n, ast.Name) and n.id == name and isinstance(n.ctx, (ast.Store, ast.Del))]
+        if len(stores) != 1:
+            continue
+        if any(chain == c or chain.startswith(c + ".") or c.startswith(chain + ".") for c in stored_chains):
+            continue
+        # must be a top-level statement of the function body that precedes every use (no conditional binding)
+        if st not in fn.body:
+            continue
+        first_use = min((n.lineno, n.col_offset) for n in ast.walk(fn) if isinstance(n, ast.Name) and n.id == name and isinstance(n.ctx, ast.Load)) \
+            if any(isinstance(n, ast.Name) and n.id == name and isinstance(n.ctx, ast.Load) for n in ast.walk(fn)) else None
+        if first_use is not None and first_use < (st.lineno, st.col_offset):
+            continue
+
+        class R(ast.NodeTransformer):
+            def visit_Name(self, node):  # noqa: N802
+                if node.id == name and isinstance(node.ctx, ast.Load):
+                    return ast.copy_location(copy.deepcopy(st.value), node)
+                return node
+
+        for i, b in enumerate(list(fn.body)):
+            if b is st:
+                continue
+            fn.body[i] = R().visit(b)
+        fn.body.remove(st)
+        if not fn.body:
+            fn.body.append(ast.Pass())
+        done += 1
+    return done
+
+
 def apply(tree: ast.Module) -> list[str]:
     """Dissolve transparent helpers of `tree` into their callers (in place). -> names inlined (one per call site)."""
     inl = _Inliner(tree)
     inl.run()
+    aliases = 0
+    for n in ast.walk(tree):
+        if isinstance(n, ast.FunctionDef):
+            aliases += _propagate_self_aliases(n)
+    if aliases:
+        ast.fix_missing_locations(tree)
     if inl.inlined:
         ast.fix_missing_locations(tree)
     return inl.inlined
